@@ -272,9 +272,9 @@ fn main() {
             (vec![1, 2], full, Some(4), Some(2)),
             (vec![2, 2], 6, Some(3), Some(1)),
             (vec![2, 2, 0], 4, Some(2), None),
-            (vec![2, 2, 1], 3, Some(2), None),
+            (vec![2, 2, 1], 3, Some(1), None),
             (vec![3, 2], 3, Some(2), None),
-            (vec![2, 3], 3, Some(2), None),
+            (vec![2, 3], 3, Some(1), None),
             (vec![1, 1, 1], full, Some(3), Some(1)),
         ]);
     } else {
